@@ -56,3 +56,5 @@ func VerifParseLink(link, base string) (string, string) {
 	}
 	return "", "parse"
 }
+
+var VerifFilterReferrers = filterReferrers
